@@ -304,19 +304,30 @@ def corruption_catalogue(h5, rng):
         out.append((f"index[{kind_i}]", {"events/index"}, c_index,
                     r"index feature is not enumerated"))
     if "fluorescence:channel count" in h5.attrs:
-        def c_chc(h):
-            h.attrs["fluorescence:channel count"] = int(h.attrs["fluorescence:channel count"]) + 1
-        out.append(("channel_count", {"fluorescence:channel count"}, c_chc,
-                    r"channel count inconsistent"))
+        # a count that contradicts the data: one more, one less, or exactly zero
+        def wrong_count(cur):
+            opts = [cur + 1, 0] + ([cur - 1] if cur > 1 else [])
+            opts = [o for o in opts if o != cur]
+            return int(opts[int(rng.integers(0, len(opts)))])
+        wc = wrong_count(int(h5.attrs["fluorescence:channel count"]))
 
-        def c_lsc(h):
-            h.attrs["fluorescence:laser count"] = int(h.attrs["fluorescence:laser count"]) + 1
-        out.append(("laser_count", {"fluorescence:laser count"}, c_lsc,
-                    r"laser count inconsistent"))
+        def c_chc(h, wc=wc):
+            h.attrs["fluorescence:channel count"] = wc
+        if int(h5.attrs["fluorescence:channel count"]) > 0:
+            out.append(("channel_count", {"fluorescence:channel count"}, c_chc,
+                        r"channel count inconsistent"))
+        wl = wrong_count(int(h5.attrs["fluorescence:laser count"]))
+
+        def c_lsc(h, wl=wl):
+            h.attrs["fluorescence:laser count"] = wl
+        if int(h5.attrs["fluorescence:laser count"]) > 0:
+            out.append(("laser_count", {"fluorescence:laser count"}, c_lsc,
+                        r"laser count inconsistent"))
         if "trace" in ev and len(ev["trace"]):
-            def c_spe(h):
-                h.attrs["fluorescence:samples per event"] = \
-                    int(h.attrs["fluorescence:samples per event"]) + 1
+            ws = wrong_count(int(h5.attrs["fluorescence:samples per event"]))
+
+            def c_spe(h, ws=ws):
+                h.attrs["fluorescence:samples per event"] = ws
             out.append(("samples_per_event", {"fluorescence:samples per event"}, c_spe,
                         r"wrong number of samples per event"))
 
